@@ -292,6 +292,13 @@ func runC13Case(c *Ctx, idx int) *CaseResult {
 	cr := &CaseResult{}
 	r := c.Rng(idx, 0)
 	prog, sites := genC13(r)
+	if idx >= tierN(1500, 60000)(c.Tier) {
+		// appended cases: the WHOLE condition of a rule that fires is a counted call (or its
+		// negation) which other rules read as part of larger conditions - firing that rule is no
+		// invalidation event
+		sites = c13Bare(r, prog, sites)
+		cr.inc("bare_call_condition_programs")
+	}
 	pipeline := pipelines[r.Intn(len(pipelines))]
 	style := traceStyle(c.Rng(idx, 1))
 	if style.Redundant {
@@ -356,7 +363,85 @@ func init() {
 		ID: "C13", Level: "exploration",
 		Rule: "rule sets (2-12 rules) into which 1-3 counted pure method calls T.Tag(id,...) are injected, each with identical text in k>=1 rules (either operand of && / ||, inside arithmetic, in then right-hand sides), run lengths 1-60 cycles, all four build pipelines; oracle = calls logged per id <= 1 + invalidation events from the validated trace (executed assignments overlapping a variable of the call, Forget/Changed naming it; generous overlap: a selector matches any element); non-trivial = distinct (program, state, call text) where the text occurs in >=2 rules, the run has >=3 cycles and the method was called",
 		Assume: []string{"methods never fail (a failed evaluation is legitimately retried)", "the generous overlap reading can miss an unnecessary re-evaluation between sibling elements but never accuses correct code"},
-		Cases:  tierN(1500, 60000),
+		Cases:  func(t string) int { return tierN(1500, 60000)(t) + tierN(200, 6000)(t) },
 		Run:    runC13Case,
 	})
+}
+
+// c13Bare rewrites the program so that one boolean counted call is the whole condition of two
+// rules (plain and negated, so that one of them fires) and part of the condition of every other.
+func c13Bare(r *rand.Rand, prog *Program, sites []*tagSite) []*tagSite {
+	var s *tagSite
+	for _, x := range sites {
+		if x.Ty == TBool {
+			s = x
+		}
+	}
+	if len(prog.Rules) < 2 {
+		return sites
+	}
+	if s == nil {
+		// no boolean call in this program yet: add one over a string field
+		arg := VarE(P([]string{"F.S1", "F.S2", "G.S1"}[r.Intn(3)]), TStr, reflect.String)
+		call := CallE(tool(), "TagS", TBool, reflect.Bool, LitI(9), arg)
+		s = &tagSite{ID: 9, Call: call, Text: ExprText(call), Rules: map[string]bool{}, Ty: TBool, Vars: append(pathsOf(arg), P("T"))}
+		if len(sites) > 0 {
+			s.ProgVars = sites[0].ProgVars
+		}
+		sites = append(sites, s)
+	}
+	for i, rule := range prog.Rules {
+		s.Rules[rule.Name] = true
+		switch {
+		case i == 0:
+			rule.When = s.Call
+		case i == 1:
+			rule.When = Not(s.Call)
+		default:
+			rule.When = Bin([]string{"&&", "||"}[r.Intn(2)], TBool, rule.When, s.Call)
+		}
+	}
+	// the conditions changed: announcements may only name variables the program still has
+	// (Forget of a text that is no variable un-remembers by substring, a different rule)
+	progVars := map[string]bool{}
+	collect := func(e *Expr) {
+		e.Walk(func(x *Expr) {
+			if x.Op == "var" && x.Path != nil && len(x.Path.Steps) > 0 {
+				for _, st := range x.Path.Steps {
+					if st.Sel != nil {
+						return
+					}
+				}
+				progVars[PathText(x.Path)] = true
+			}
+		})
+	}
+	for _, rule := range prog.Rules {
+		collect(rule.When)
+		for _, st := range rule.Then {
+			if st.RHS != nil {
+				collect(st.RHS)
+			}
+			if st.Call != nil {
+				collect(st.Call)
+			}
+			if st.Target != nil && st.Kind == "assign" {
+				collect(VarE(st.Target, TAny, 0))
+			}
+		}
+	}
+	for _, rule := range prog.Rules {
+		var keep []*Stmt
+		for _, st := range rule.Then {
+			if (st.Kind == "forget" || st.Kind == "changed") && !progVars[st.Name] && st.Name != "T.St" && st.Name != "T.Peek()" && st.Name != peekKText {
+				continue
+			}
+			keep = append(keep, st)
+		}
+		rule.Then = keep
+	}
+	for _, x := range sites {
+		x.ProgVars = progVars
+	}
+	return sites
 }
